@@ -173,15 +173,15 @@ PROPS = {
         "note": "derivability is computed under the matching table of C01 (a superset of what the library can match, so the premise is conservative).",
         "theorems": ["ArgMapper.C13.hopeless_reported", "ArgMapper.C13.unsat_before_execution", "ArgMapper.C13.exact_not_listed", "ArgMapper.C02.refused", "ArgMapper.C02.refused_original_false", "ArgMapper.C06.no_walk_panic"], "facts": {"r5SkipSame": "true", "r6NameTest": "true", "publishAfterUpdate": "true", "trackReaching": "true", "takeValuedNamed": "true", "hopCopies": "true", "memoCopy": "true"},
         "rule": "call: at least one function executed, or an unsatisfied error with a converter present.",
-        "runs": {"quick": [fam("call", 500, 0, "hopeless"), fam("call", 300, 0, "general"), fam("call", 150, 0, "gens")],
-                 "thorough": [fam("call", 60000, 0, "hopeless"), fam("call", 40000, 0, "general"), fam("call", 10000, 0, "gens")]},
+        "runs": {"quick": [fam("call", 500, 0, "hopeless"), fam("call", 300, 0, "general"), fam("call", 150, 0, "gens"), fam("hist", 400, 0)],
+                 "thorough": [fam("call", 60000, 0, "hopeless"), fam("call", 40000, 0, "general"), fam("call", 10000, 0, "gens"), fam("hist", 30000, 0)]},
     },
     "C03": {
         "claim": "Theorems: exact_wins_named (any oracle) and exact_wins (every legal Dijkstra oracle; uses C18.dist_exact and the weighted edge characterisation regenerated from graph.go): with an exactly matching supplied value for every parameter only the target executes and each parameter receives its exact value. Exact matches win: with an exactly matching supplied value for every parameter no converter runs and each parameter receives that value, whatever distractors are supplied. Tied to the code by trace conformance on the exact+distractors family (5 repetitions per scenario for tie-breaking) and the predicate on real traces.",
         "note": "", "theorems": ["ArgMapper.C03.exact_wins_named", "ArgMapper.C03.exact_wins", "ArgMapper.C03.sameInputs_of_consistent", "ArgMapper.C03.namedOK_of_build", "ArgMapper.C03.builderOK_of_build", "ArgMapper.C03.counterexample_duplicate_key", "ArgMapper.C03.counterexample_same_key", "ArgMapper.C03.counterexample_typed_key"], "facts": {"r5SkipSame": "true", "r6NameTest": "true", "publishAfterUpdate": "true", "trackReaching": "true", "takeValuedNamed": "true", "hopCopies": "true", "memoCopy": "true"},
         "rule": "call: any scenario of the family (the target always executes).",
-        "runs": {"quick": [fam("call", 500, 0, "exact"), fam("call", 200, 0, "general")],
-                 "thorough": [fam("call", 100000, 0, "exact"), fam("call", 20000, 0, "general")]},
+        "runs": {"quick": [fam("call", 500, 0, "exact"), fam("call", 200, 0, "general"), fam("hist", 400, 0)],
+                 "thorough": [fam("call", 100000, 0, "exact"), fam("call", 20000, 0, "general"), fam("hist", 30000, 0)]},
     },
     "C04": {
         "claim": "Theorems (for every graph, oracle, behaviour and fuel): a failing execution is the last execution of the call and its error is what Call returns; a successful call executed no failing function; the target's own error is reported by the accessor. Tied to the code by trace conformance on chains with failing converters at every depth (multi-input, struct-returning, memoised) with error identity checked through provenance ids.",
@@ -194,8 +194,8 @@ PROPS = {
         "claim": "Theorems for the subtype-free fragment, every oracle: complete_single (single-input converters, cycles allowed: once callGraph finds every parameter reachable the call ends in success or in a function body's own error) stable (the outcome class does not depend on the oracle) and complete_acyclic (clause (b): any number of inputs per converter, the pruned graph acyclic and every surviving converter with all its requirements in the graph). With the full label language (names, subtypes, interfaces) and every legal oracle: complete_single_legal (single-input converters, arbitrary cycles — true of the repaired walk only: counterexample_single_legal is the pre-repair model refusing a satisfiable call, finding F22) and complete_acyclic_legal. Chaining is complete and the outcome stable on well-behaved converter sets. Tied to the code by trace conformance on acyclic-satisfiable and single-input-cyclic families, 8 repetitions per scenario; completeness is judged against the matching table, with the table-but-not-library matches (gaps G1-G5) listed as known findings.",
         "note": "", "theorems": ["ArgMapper.C05.complete_single", "ArgMapper.C05.stable", "ArgMapper.C05.newFunc_setsWF", "ArgMapper.C05.counterexample_duplicate_named_key", "ArgMapper.C05.counterexample_values_without_struct", "ArgMapper.C05.complete_acyclic", "ArgMapper.C05.complete_single_legal", "ArgMapper.C05.complete_acyclic_legal", "ArgMapper.C05.complete_single_legal_partial_no_r6", "ArgMapper.C05.counterexample_single_legal", "ArgMapper.C05.counterexample_single_legal_repaired", "ArgMapper.C05.complete_single_any_oracle", "ArgMapper.C05.stable_any_oracle", "ArgMapper.C13.ruleFlow_iff_lib", "ArgMapper.C13.gaps_classified"], "facts": {"r5SkipSame": "true", "r6NameTest": "true", "publishAfterUpdate": "true", "trackReaching": "true", "takeValuedNamed": "true", "hopCopies": "true", "memoCopy": "true"},
         "rule": "call: at least one function executed, or an unsatisfied error with a converter present.",
-        "runs": {"quick": [fam("call", 300, 0, "single"), fam("call", 300, 0, "acyclic"), fam("call", 150, 0, "gens")],
-                 "thorough": [fam("call", 30000, 0, "single"), fam("call", 30000, 0, "acyclic"), fam("call", 10000, 0, "gens")]},
+        "runs": {"quick": [fam("call", 300, 0, "single"), fam("call", 300, 0, "acyclic"), fam("call", 150, 0, "gens"), fam("dij", 300, 7), fam("dij", 100, 5, "huge")],
+                 "thorough": [fam("call", 30000, 0, "single"), fam("call", 30000, 0, "acyclic"), fam("call", 10000, 0, "gens"), fam("dij", 20000, 9), fam("dij", 3000, 6, "huge")]},
     },
     "C07": {
         "claim": "Theorems (any legal complete pop order, negative weights allowed): feeder_pred / branch_pred / branch_pred_long (Dijkstra level), affinity_path / named_converter_path / named_converter_path' (the path chosen on the re-weighted reversed copy enters the converter's type-only input from the same-named supplied value; reaches the parameter through the name-using converter), walk_converts_feeder / walk_runs_named_converter (walking such a path executes the converter once, on the same-named value). Name affinity decides between equal candidates. The theorems' premises famA / famB / famB' are decidable and evaluated on the real pruned graph of every scenario (distribution key prem=). Tied to the code by trace conformance on the two documented families (1-6 competing same-typed inputs; type-only vs name-using converter; all forms; shuffled registration order; 10 repetitions).",
@@ -233,7 +233,7 @@ PROPS = {
         "note": "the library's own identity closure cannot be instrumented: its behaviour (returns its argument) is assumed in the replay of Convert runs.",
         "theorems": ["ArgMapper.C10.convert_is_call", "ArgMapper.C10.convert_failure", "ArgMapper.C10.identity_shape", "ArgMapper.C10.identity_error_shape", "ArgMapper.C10.converted_value_is_injected"], "facts": {"r5SkipSame": "true", "r6NameTest": "true", "publishAfterUpdate": "true", "trackReaching": "true", "takeValuedNamed": "true", "hopCopies": "true", "memoCopy": "true", "r8SkipSupplied": "true", "skipRecordsInput": "false", "dupIsError": "true", "onceLockCoversCall": "true"},
         "rule": "conv: at least one function executed, or an unsatisfied error with a converter present.",
-        "runs": {"quick": [fam("conv", 500, 0), fam("convseq", 60, 0)], "thorough": [fam("conv", 50000, 0), fam("convseq", 2000, 0)]},
+        "runs": {"quick": [fam("conv", 500, 0), fam("convseq", 60, 0), fam("race", 40, 8, "25", bin="harness-race")], "thorough": [fam("conv", 50000, 0), fam("convseq", 2000, 0), fam("race", 500, 8, "40", bin="harness-race")]},
     },
     "C11": {
         "claim": "Theorems: once_at_most_once and first_result_kept over any history of calls; memo_hit; reuse_never_panics; the concurrent protocol theorem C12.once_concurrent (any number of threads, any schedule). A run-once function executes at most once over any history and later uses see the first result. Sequential part: histories of Call / Redefine on shared function objects are replayed through the model with the memo cells threaded, and the number of executions per run-once function is counted on the real trace. Concurrent part: see DESIGN.md (race-detector stress; not yet registered).",
